@@ -235,12 +235,26 @@ def _pick(points, limit=90):
     return sorted(set(head + tail + list(range(20, points - 20, step))))
 
 
-def profile_sweep(earlier, rows, cols):
-    """Like crash_sweep, with the API-independent kill points (sampled when there are many)."""
+def other_filesystem_root():
+    """A writable directory on a DIFFERENT file system than the system temporary directory (a results directory is not
+    promised to share a file system with /tmp), or None if the machine has none."""
+    try:
+        t = os.stat(tempfile.gettempdir()).st_dev
+        for cand in ("/dev/shm", "/run/shm", os.path.expanduser("~"), "/var/tmp"):
+            if os.path.isdir(cand) and os.access(cand, os.W_OK) and os.stat(cand).st_dev != t:
+                return cand
+    except OSError:
+        pass
+    return None
+
+
+def profile_sweep(earlier, rows, cols, root=None):
+    """Like crash_sweep, with the API-independent kill points (sampled when there are many).  root: where the results
+    directory is created (default: the system temporary directory)."""
     bad = []
     from pyvc.mode import native_pkg
     native_pkg().mod("run.save")
-    base = tempfile.mkdtemp(prefix="c20p_")
+    base = tempfile.mkdtemp(prefix="c20p_", dir=root)
     try:
         pre = os.path.join(base, "pre")
         os.makedirs(pre)
